@@ -49,6 +49,7 @@ def check(ctx):
     o = Ob('C16.1', 'K1+K2', 'add_value: zero change => nothing; otherwise value += change, then history gets (label, now, change, new total); '
                              'value and history have no other writer')
     obs.append(o)
+    dv.check_defaults(ctx, o, [(k.name, '__init__', 'value') for k in P.classes.values() if 'value' in [a_.arg for a_ in (k.methods.get('__init__').args.args if k.methods.get('__init__') else [])]])
     g = ctx.graph(A, 'add_value')
     fn = P.method(A, 'add_value')[1]
     lp, vp = [a.arg for a in fn.args.args][1:3]
